@@ -125,7 +125,7 @@ def _strict_test(model: Model):
 def _escapes(model: Model, rep: Report, cg: CallGraph, reach: Set[str]) -> None:
     r2 = rep.rule("C13-R2", "EXC", "no internal error (type/index/key/struct/value/...) can escape the extraction entry points", 40)
     ops = make_ops(model)
-    xf = ExcFlow(model, cg.r, ops, scope=reach, include_assert=False, dead_test=_strict_test(model))
+    xf = ExcFlow(model, cg.r, ops, scope=reach, include_assert=False, dead_test=_strict_test(model), implicit=cg.implicit)
     xf.solve()
     seen: Dict[Tuple[str, str], Event] = {}
     excs: Dict[Tuple[str, str], Set[str]] = {}
